@@ -64,6 +64,14 @@ CHECKS = [
          text='Coq theorems (ReaderProof.v): for every byte string, table and mode the chunked read loop (1024-byte buffer, 1020 target, <= 4 carried bytes) yields exactly the whole-string tokenisation, hence independence of fragmentation and padding; a reader fault at any offset <= len yields the error; UTF-8 decode/encode round trip; the original loop is refuted by a 1025-byte witness. Reader model stream + MatchFrom-vs-Match oracle under adversarial readers.',
          note='io.ReadFull semantics abstracted (byte stream + failure offset), validated by the adversarial readers; Match depends on input only through tokenisation.',
          technique=T_CORR),
+    dict(id='C17',
+         text='Models of v1 Tokenize and of the candidate-range pipeline (sort order given, untangle, split, merge, coalesce, TargetRange) tied to the code on license snippets, Unicode/invalid UTF-8 strings and highly repetitive low-vocabulary pairs; theorems (Tok1Proof.v, when listed in the evidence) on offsets reproducing token text and on ranges staying in bounds; direct oracles on Tokenize and FindPotentialMatches output.',
+         note='targetMatchedRanges (hash join with aliasing slices) is an oracle: the model starts from the sorted list it produces; unicode classes from the running code.',
+         technique=T_CORR),
+    dict(id='C13',
+         text='Model of the exact-occurrence branch (token scan, TargetRange, slice bounds) with the theorem that a token-aligned occurrence is reported with exactly its Offset/Extent and that reported spans lie inside the text (Matcher1Proof.v when listed); the original scan is refuted by computation. Oracle in child processes (worker-goroutine panics kill the process): planted verbatim values, NearestMatch of known values, confidence and span bounds, AddValue on arbitrary strings.',
+         note='partial: regexp literal search, levDist/go-diff, dedup/uniquify and the goroutine fan-out are exercised by the oracle only.',
+         technique=T_CORR),
 ]
 _PENDING = "check under construction in this round (model/proof not yet committed); not claimed until it is"
-NOT_APPLICABLE = [dict(property_id='C%02d' % i, reason=_PENDING) for i in range(1, 20) if i not in (1,2,3,4,5,6,7,8,10,11,18)]
+NOT_APPLICABLE = [dict(property_id='C%02d' % i, reason=_PENDING) for i in range(1, 20) if i not in (1,2,3,4,5,6,7,8,10,11,13,17,18)]
